@@ -31,11 +31,11 @@ def run(ctx):
             err.append(e)
 
     th = threading.Thread(target=model)
-    th.start()
     conf = {'cases': 6, 'texts': 8, 'max_per_field': 8} if ctx.quick else {'cases': 10 ** 6, 'texts': 110, 'max_per_field': 14}
     specs = sh.trace_specs(ctx, 'c08', 1)
     specs += sh.trace_specs(ctx, 'texts', 1 if ctx.quick else 2, base=len(specs))
     res = sh.generate(specs, conf, nproc=6 if ctx.quick else 14)
+    th.start()  # only after the fork pool is gone: forking with a live thread can deadlock the children
     val = sh.validate_all(ctx, res)
     th.join()
     if err:
